@@ -2,6 +2,7 @@
 import SevenZ.Driver.Util
 import SevenZ.Model.Path
 import SevenZ.Model.Cli
+import SevenZ.Model.Select
 namespace SevenZ.Driver
 open SevenZ
 
@@ -40,6 +41,9 @@ def pathHandler (op : String) (args : List String) : Option String :=
       | none => "err"
       | some q => "ok " ++ showStr q)
   | "path.stored", [a] => do pure (showStr (Impl.storedName (← parseStr a)))
+  | "sel.run", [r, ts, name] => do
+    let targets ← (if ts = "." then some [] else (ts.splitOn ";").mapM parseStr)
+    pure (b01 (Impl.selected (← parseBool r) targets (← parseStr name)))
   | "cli.check", [a] => do pure (b01 (Impl.checkVolumeSize (← parseStr a)))
   | "cli.conv", [r, a] => do
     pure (match Impl.unitConv (← parseBool r) (← parseStr a) with
